@@ -3,13 +3,5 @@
 import os, sys
 here = os.path.dirname(os.path.abspath(__file__)); sys.path.insert(0, os.path.join(here, ".."))
 from vlib import b64spec
-hdr = '''/* GENERATED by tools/gen_contract_headers.py from vlib/b64spec.py - do not edit.
- * Unbounded functional contract of sodium_bin2base64 (C15, C12), quantifier free with the ghost index g_k:
- *   character k < ceil(8 len / 6) is the RFC 4648 character of the k-th 6-bit group of the input (zero padded),
- *   then '=' up to the padded length (padding variants), then zero bytes up to b64_maxlen; the buffer is returned. */
-#pragma once
-#include <stddef.h>
-extern size_t g_k;
-'''
-open(os.path.join(here, "..", "contracts", "codecs_enc.h"), "w").write(hdr + b64spec.contract())
+open(os.path.join(here, "..", "contracts", "codecs_enc.h"), "w").write(b64spec.header())
 print("contracts/codecs_enc.h written")
